@@ -230,10 +230,10 @@ func muxDataInDomain(d *astits.MuxerData) bool {
 	h := d.PES.Header
 	sid := h.StreamID
 	if sid != 0 {
-		if !writableHeader(h) {
+		if !c12WritableHeader(h) {
 			return false
 		}
-	} else if h.OptionalHeader == nil || !writableOpt(h.OptionalHeader) {
+	} else if h.OptionalHeader == nil || !c12WritableOpt(h.OptionalHeader) {
 		return false // the stream id filled in from the stream type always carries an optional header
 	}
 	if af := d.AdaptationField; af != nil {
@@ -468,9 +468,9 @@ func (g *muxGen) pesHeader() *astits.PESHeader {
 	case 1, 2, 3:
 		h.StreamID = 0
 	default:
-		h.StreamID = genSID(r)
-		for !writableHeader(&astits.PESHeader{StreamID: h.StreamID, OptionalHeader: &astits.PESOptionalHeader{MarkerBits: 2}}) {
-			h.StreamID = genSID(r)
+		h.StreamID = c12GenSID(r)
+		for !c12WritableHeader(&astits.PESHeader{StreamID: h.StreamID, OptionalHeader: &astits.PESOptionalHeader{MarkerBits: 2}}) {
+			h.StreamID = c12GenSID(r)
 		}
 	}
 	if r.Chance(1, 4) {
@@ -480,7 +480,7 @@ func (g *muxGen) pesHeader() *astits.PESHeader {
 			h.OptionalHeader.PTS = genCR(r, 0)
 		}
 	} else {
-		h.OptionalHeader = genOptRandom(r, true)
+		h.OptionalHeader = c12GenOptRandom(r, true)
 	}
 	return h
 }
